@@ -15,7 +15,18 @@ def gen_case(seed):
     import random
 
     r = random.Random(seed)
-    kind = r.choice(["convert", "convert", "convert", "align_tensor", "align_term", "align_gauss", "materialize"])
+    kind = r.choice(["convert", "convert", "convert", "align_tensor", "align_term", "align_gauss", "materialize", "align_tensors"])
+    if kind == "align_tensors":
+        # several tensors over overlapping name sets listed in different orders (sizes coincide in half of the cases)
+        k = r.randint(2, 3)
+        pool = r.sample(NAMES, r.randint(2, 4))
+        eq = r.random() < 0.5
+        sizes = {n_: (2 if eq else r.randint(1, 3)) for n_ in pool}
+        tensors = []
+        for i_ in range(k):
+            names = r.sample(pool, len(pool) if r.random() < 0.5 else r.randint(1, len(pool)))
+            tensors.append(names)
+        return dict(kind=kind, sizes=sorted(sizes.items()), tensors=tensors, eshape=[r.randint(1, 2) for _ in range(r.randint(0, 1))], expand=r.random() < 0.6, a=r.randrange(9973))
     if kind == "convert":
         rank = r.randint(0, 5)
         event = r.randint(0, min(2, rank))
@@ -30,7 +41,13 @@ def gen_case(seed):
             else:
                 shape.append(1)
         eshape = [r.randint(1, 3) for _ in range(event)]
-        extra_left = r.randint(0, 1)  # dim_to_name may mention dims to the left of x's shape
+        if event == 0 and r.randint(0, 2) == 0:
+            # dim_to_name may mention dims to the left of x's shape (to_data drops leading batch dims of size 1, so the
+            # map of a round trip does): those names denote no dimension of x
+            spare = [n_ for n_ in NAMES if n_ not in names]
+            for j_ in range(r.randint(1, 2)):
+                if j_ < len(spare):
+                    d2n[-(nb + 1 + j_)] = spare[j_]
         return dict(kind=kind, shape=shape, eshape=eshape, d2n=sorted(d2n.items()), dtype=r.choice(["real", "real", 3, 5]), a=r.randrange(9973),
                     give_output=r.random() < 0.7, perm_seed=r.randrange(1000))
     if kind == "align_tensor":
@@ -78,6 +95,50 @@ class C19(Prop):
         stt.count("kind:" + case["kind"])
         return getattr(self, "check_" + case["kind"])(case, stt)
 
+    def check_align_tensors(self, case, stt):
+        from collections import OrderedDict
+
+        from funsor import Bint, Tensor
+        from funsor.tensor import align_tensors
+
+        sizes = dict((k, v) for k, v in case["sizes"])
+        eshape = tuple(case["eshape"])
+        ts, datas = [], []
+        for i_, names in enumerate(case["tensors"]):
+            shape = tuple(sizes[n_] for n_ in names) + eshape
+            data = fill(shape, case["a"] + 31 * i_, "real")
+            datas.append(data)
+            ts.append(Tensor(data, OrderedDict((n_, Bint[sizes[n_]]) for n_ in names)))
+        try:
+            inputs, raws = align_tensors(*ts, expand=case["expand"])
+        except Exception as e:
+            raise Decline("align_tensors-raised:" + innermost_funsor_frame(e))
+        order = list(inputs)
+        union = []
+        for names in case["tensors"]:
+            for n_ in names:
+                if n_ not in union:
+                    union.append(n_)
+        if order != union:
+            raise Violation("align_tensors-order", f"inputs {order}, expected first-occurrence order {union}: {self.describe(case)}")
+        full = tuple(sizes[n_] for n_ in order) + eshape
+        for names, data, raw in zip(case["tensors"], datas, raws):
+            raw = np.asarray(raw)
+            if case["expand"] and raw.shape != full:
+                raise Violation("align_tensors-shape", f"expand=True returned shape {raw.shape}, expected {full}: {self.describe(case)}")
+            try:
+                big = np.broadcast_to(raw, full)
+            except ValueError:
+                raise Violation("align_tensors-shape", f"returned shape {raw.shape} does not broadcast to {full}: {self.describe(case)}")
+            for idx in itertools.product(*[range(sizes[n_]) for n_ in order]):
+                pt = dict(zip(order, idx))
+                want = data[tuple(pt[n_] for n_ in names)]
+                if not close(big[idx], want):
+                    raise Violation("align_tensors-value", f"tensor over {names}: aligned data at {pt} is {np.asarray(big[idx]).tolist()}, the tensor holds {np.asarray(want).tolist()}: {self.describe(case)}")
+        stt.count("completed")
+        if any(list(names) != [n_ for n_ in order if n_ in names] for names in case["tensors"]):
+            stt.mark_nontrivial(case_hash(case))
+
     def check_convert(self, case, stt):
         from funsor import Bint, Reals, to_data, to_funsor
         from funsor.domains import Array
@@ -94,15 +155,16 @@ class C19(Prop):
         out = Array[dtype, tuple(eshape)]
         give = case["give_output"] or dtype != "real" or not d2n
         if not give:
-            # without an explicit output the leftmost named dim decides the event shape
-            if -min(d2n) != len(shape):
+            # without an explicit output the leftmost named dim decides the event shape (names to the left of x's own
+            # dims denote nothing: then all of x's dims are batch dims)
+            if -min(d2n) < len(shape) or (-min(d2n) > len(shape) and eshape):
                 give = True
         try:
             f = to_funsor(x, out, d2n) if give else to_funsor(x, None, d2n)
         except Exception as e:
             raise Decline("to_funsor-raised:" + innermost_funsor_frame(e))
         nb = len(shape)
-        named = {nb + k: v for k, v in d2n.items()}  # batch position -> name
+        named = {nb + k: v for k, v in d2n.items() if nb + k >= 0}  # batch position -> name
         kept = {pos: n for pos, n in named.items() if shape[pos] != 1}
         if set(f.inputs) != set(kept.values()):
             raise Violation("convert-inputs", f"inputs {list(f.inputs)} expected {sorted(kept.values())}: {self.describe(case)}")
@@ -182,7 +244,7 @@ class C19(Prop):
         from vf.build import build
         from vf.props.c01 import evaluate_against_oracle
 
-        node = gen_expr(SeedSource(case["seed"]), Opts(max_depth=2, reals=True), ("real", ()))
+        node = robust_gen(lambda s_: gen_expr(SeedSource(s_), Opts(max_depth=2, reals=True), ("real", ())))(case["seed"])
         try:
             with getattr(I, case["mode"]):
                 t = build(node)
